@@ -325,15 +325,16 @@ func (store *fileStore) SaveMessage(seqNum int, msg []byte) error {
 	if _, err := store.headerFile.Seek(0, io.SeekEnd); err != nil {
 		return fmt.Errorf("unable to seek to end of file: %s: %s", store.headerFname, err.Error())
 	}
-	if _, err := fmt.Fprintf(store.headerFile, "%d,%d,%d\n", seqNum, offset, len(msg)); err != nil {
-		return fmt.Errorf("unable to write to file: %s: %s", store.headerFname, err.Error())
-	}
-	verifCrashPoint("SaveMessage.headerWritten", store.headerFname)
-
+	// The message bytes go first: an index line must never point at bytes that are not there.
 	if _, err := store.bodyFile.Write(msg); err != nil {
 		return fmt.Errorf("unable to write to file: %s: %s", store.bodyFname, err.Error())
 	}
 	verifCrashPoint("SaveMessage.bodyWritten", store.bodyFname)
+
+	if _, err := fmt.Fprintf(store.headerFile, "%d,%d,%d\n", seqNum, offset, len(msg)); err != nil {
+		return fmt.Errorf("unable to write to file: %s: %s", store.headerFname, err.Error())
+	}
+	verifCrashPoint("SaveMessage.headerWritten", store.headerFname)
 	if store.fileSync {
 		return store.syncBodyAndHeaderFilesLocked()
 	}
